@@ -1,5 +1,6 @@
 import OutrankModel.Model.Wire
 import OutrankModel.Model.C07
+import OutrankModel.Model.C15
 /-!
 Line-protocol driver (DESIGN §2.2): one request per line on stdin, one reply per line on stdout.
 Adds only parsing and printing around the definitions the theorems are about.
@@ -44,9 +45,43 @@ def handleC07 (st : DState) : List Val → DState × Val
     | _, _ => (st, bad "C07-spread")
   | _ => (st, bad "C07")
 
+def matrixVal (M : List (List Int)) : Val := .list (M.map fun r => .list (r.map .int))
+def matrixOf? (v : Val) : Option (List (List Int)) := do
+  let l ← v.list?
+  l.mapM Val.intList?
+
+/-- C15: `cms d w ops locs` – ops = [[item, δ]…], locs[item] = column per row (from the real `cms_hash`) -/
+def handleC15 (st : DState) : List Val → DState × Val
+  | [.atom "cms", d, w, ops, locs] =>
+    match d.nat?, w.nat?, pairsOf? ops, (locs.list?.bind fun l => l.mapM Val.natList?) with
+    | some d, some w, some ops, some locs =>
+      let loc : Nat → Nat → Nat := fun x i => ((locs[x]?.getD [])[i]?).getD 0
+      let M := C15.run loc (C15.zeros d w) ops
+      let qs := (List.range locs.length).map fun x => match C15.query loc M x with
+        | some q => Val.int q
+        | none => Val.atom "none"
+      (st, .list [matrixVal M, .list qs])
+    | _, _, _, _ => (st, bad "C15-cms")
+  | [.atom "cmsspec", n, ops, M, qs] =>
+    match n.nat?, pairsOf? ops, matrixOf? M, qs.intList? with
+    | some n, some ops, some M, some qs => (st, ofBool (C15.cmsSpecB n ops M qs))
+    | _, _, _, _ => (st, bad "C15-cmsspec")
+  | [.atom "ctr", bound, vs] =>
+    match bound.nat?, vs.natList? with
+    | some b, some vs =>
+      let c := (C15.Ctr.empty : C15.Ctr Nat).run b vs
+      (st, .list (c.keys.map fun k => ofNatList [k, c.cnt k]))
+    | _, _ => (st, bad "C15-ctr")
+  | [.atom "ctrspec", bound, vs, res] =>
+    match bound.nat?, vs.natList?, pairsOf? res with
+    | some b, some vs, some r => (st, ofBool (C15.ctrSpecB b vs r))
+    | _, _, _ => (st, bad "C15-ctrspec")
+  | _ => (st, bad "C15")
+
 def handle (st : DState) (line : String) : DState × Val :=
   match parseLine line.toList with
   | some (.atom "C07" :: rest) => handleC07 st rest
+  | some (.atom "C15" :: rest) => handleC15 st rest
   | some _ => (st, bad "unknown-property")
   | none => (st, bad "parse")
 
